@@ -15,7 +15,7 @@ RULE = ("formats E 2..7 x M 0..10 x srbits in {1..12, default}; inputs: represen
         "the real generator checks the draw request (one call, size == x.shape, range [0,2^srbits)) and that each element's result "
         "is the enumerated result for its own recorded draw. Every case first quantises with OTHER srbits / nearest rounding of the "
         "same (E, M) in the same process (history). Non-trivial = input strictly between two representable values; "
-        "distinct = (E, M, srbits) combinations x input class.")
+        "distinct = (E, M, srbits) combinations x input class. The enumerated argument is a broadcast view (stride 0), column-major, or contiguous (one third each).")
 ASSUMPTIONS = ["the random source is torch.randint looked up on the torch module at call time (rebinding it is the substitution point)",
                "float64 arithmetic on float32 values is exact"]
 IMPORTS = ["unit_scaling.formats"]
